@@ -39,6 +39,9 @@ type Scenario struct {
 	// GenesisOffsetS: genesis time relative to the moment the node starts (negative: in the past).
 	GenesisOffsetS int `json:"genesis_offset_s"`
 	AggExecMs      int `json:"agg_exec_ms,omitempty"`
+	// MempoolStallMs: the execution client takes this long to answer GetTxs (it gives up when its
+	// caller's context ends).
+	MempoolStallMs int `json:"mempool_stall_ms,omitempty"`
 	FullExecMs     int `json:"full_exec_ms,omitempty"`
 	// DA faults consumed by the first submissions.
 	HeaderScript []world.SubmitResp `json:"header_script,omitempty"`
@@ -70,6 +73,9 @@ func gen(t *rapid.T) Scenario {
 	}
 	if rapid.IntRange(0, 4).Draw(t, "slowexec") == 0 {
 		sc.AggExecMs = rapid.SampledFrom([]int{5, 200, 2000}).Draw(t, "aggexec")
+	}
+	if rapid.IntRange(0, 2).Draw(t, "stall") == 0 {
+		sc.MempoolStallMs = rapid.SampledFrom([]int{50, 3000, 3_600_000}).Draw(t, "stallms")
 	}
 	if rapid.IntRange(0, 4).Draw(t, "slowsync") == 0 {
 		sc.FullExecMs = rapid.SampledFrom([]int{5, 200, 3_600_000}).Draw(t, "fullexec")
@@ -137,6 +143,7 @@ func run(sc Scenario, dir string) world.Verdict {
 			return world.Fail("C13/start", "aggregator does not start: %v", err)
 		}
 		p.Exec.Latency = time.Duration(sc.AggExecMs) * time.Millisecond
+		p.Exec.GetTxsLatency = time.Duration(sc.MempoolStallMs) * time.Millisecond
 		p.DA.PushScript("header", sc.HeaderScript...)
 		p.DA.PushScript("data", sc.DataScript...)
 		reaper := block.NewReaper(p.Ctx, p.Exec, seq, p.Opts.ChainID, o.BlockTime, world.Logger(), p.N.KV)
@@ -354,6 +361,9 @@ func run(sc Scenario, dir string) world.Verdict {
 		}
 		if sc.Lazy {
 			ls = append(ls, "lazy")
+		}
+		if sc.MempoolStallMs > 0 {
+			ls = append(ls, "execution-client-stalls-in-gettxs")
 		}
 		v := world.OK(synced >= 3 || (sc.Mode == "aggregator" && ah >= 3), ls...)
 		v.Counts = map[string]int{"blocks-produced": int(ah), "blocks-synced": synced}
